@@ -125,7 +125,7 @@ def run_prop(ctx, prop, size_bias=None):
     res = C.Result(prop)
     seed = ctx["seed"]
     rng = C.rng_for(seed, "wire", prop)
-    n = C.Budget(ctx["tier"], 700, 30000).n
+    n = C.Budget(ctx["tier"], 2500, 40000).n
     if ctx["widened"]:
         n *= 3
     cases = []
